@@ -133,14 +133,14 @@ func msgpStr(s string) string {
 	return string([]byte{0xd9, byte(len(s))}) + s
 }
 
-// flashMsg encodes one redirectionMsg without NUL bytes (level 1, not 0) so that it can travel
+// flashMsg encodes one redirectionMsg without control bytes (level 33, not 0) so that it can travel
 // in a request header.
 func flashMsg(k, v string, old bool) string {
 	o := "\xc2"
 	if old {
 		o = "\xc3"
 	}
-	return "\x84" + msgpStr("key") + msgpStr(k) + msgpStr("value") + msgpStr(v) + msgpStr("level") + "\x01" + msgpStr("isOldInput") + o
+	return "\x84" + msgpStr("key") + msgpStr(k) + msgpStr("value") + msgpStr(v) + msgpStr("level") + "\x21" + msgpStr("isOldInput") + o
 }
 
 var jsonDeep = strings.Repeat("[", 200) + strings.Repeat("]", 200)
@@ -205,7 +205,7 @@ var slots = []slotT{
 		hl("Cookie", "flash-fix15-nocontent", "Cookie: fiber_flash=\x9f"),
 		hl("Cookie", "flash-map", "Cookie: fiber_flash=\x81\xa1k\xa1v"),
 		hl("Cookie", "flash-unknownfield-nested", "Cookie: fiber_flash=\x91\x81\xa1z"+strings.Repeat("\x91", 120)+"\xc0"),
-		hl("Cookie", "flash-str32-huge", "Cookie: fiber_flash=\x91\x81\xa3key\xdb\x7f\x7f\x7f\x7f"),
+		hl("Cookie", "flash-str32-huge", "Cookie: fiber_flash=\x91\x81\xa3key\xdb\x7e\x7e\x7e\x7e"),
 		{Slot: "Cookie", ID: "flash-nul", Lines: []string{"Cookie: fiber_flash=\x91\x84\xa3key\xa1k\xa5value\xa1v\xa5level\x00\xaaisOldInput\xc2"}, Malformed: true},
 	}},
 	{"ContentEncoding", []letter{
@@ -267,9 +267,9 @@ var slots = []slotT{
 		{Slot: "ContentType", ID: "cbor", Lines: []string{"Content-Type: application/cbor"}, Payload: []byte("\xa2\x64name\x61n\x61x\x03")},
 		{Slot: "ContentType", ID: "cbor-bad", Lines: []string{"Content-Type: application/cbor"}, Payload: []byte("\xbf\x9f\x9f\x9f\x5f\xff")},
 		{Slot: "ContentType", ID: "multipart", Lines: []string{"Content-Type: multipart/form-data; boundary=X"}, Payload: []byte(mpGood)},
-		{Slot: "ContentType", ID: "multipart-otherboundary", Lines: []string{"Content-Type: multipart/form-data; boundary=Y"}, Payload: []byte(mpGood)},
-		{Slot: "ContentType", ID: "multipart-noboundary", Lines: []string{"Content-Type: multipart/form-data"}, Payload: []byte(mpGood)},
-		{Slot: "ContentType", ID: "multipart-emptyboundary", Lines: []string{`Content-Type: multipart/form-data; boundary=""`}, Payload: []byte(mpGood)},
+		{Slot: "ContentType", ID: "multipart-otherboundary", Lines: []string{"Content-Type: multipart/form-data; boundary=Y"}, Payload: []byte(mpGood), Hostile: true},
+		{Slot: "ContentType", ID: "multipart-noboundary", Lines: []string{"Content-Type: multipart/form-data"}, Payload: []byte(mpGood), Hostile: true},
+		{Slot: "ContentType", ID: "multipart-emptyboundary", Lines: []string{`Content-Type: multipart/form-data; boundary=""`}, Payload: []byte(mpGood), Hostile: true},
 		{Slot: "ContentType", ID: "semicolon", Lines: []string{"Content-Type: ;"}, Payload: []byte("a=1")},
 		{Slot: "ContentType", ID: "empty", Lines: []string{"Content-Type:"}, HasBody: true},
 	}},
@@ -624,7 +624,7 @@ func gzBomb(layers int, size int) []byte {
 	return b
 }
 
-func balloonCases() []balloonCase {
+func balloonCases(quick bool) []balloonCase {
 	var out []balloonCase
 	add := func(id, class string, req []byte) { out = append(out, balloonCase{id, req, class}) }
 	// msgpack array headers announcing n elements, spelled with bytes a request header may carry
@@ -651,9 +651,13 @@ func balloonCases() []balloonCase {
 		ce     string
 	}{
 		{"gzip1-1MiB", 1, 1 << 20, "gzip"},
+		{"gzip2-4MiB", 2, 4 << 20, "gzip, gzip"},
 		{"gzip2-16MiB", 2, 16 << 20, "gzip, gzip"},
 		{"gzip3-64MiB", 3, 64 << 20, "gzip, gzip, gzip"},
 	} {
+		if quick && c.size > 4<<20 {
+			continue // the large ones cost seconds each: thorough tier only
+		}
 		body := gzBomb(c.layers, c.size)
 		req := "POST /all HTTP/1.1\r\nHost: h\r\nContent-Encoding: " + c.ce + "\r\nContent-Length: " + strconv.Itoa(len(body)) + "\r\n\r\n" + string(body)
 		add("zip:"+c.id, "gzip-layers="+strconv.Itoa(c.layers), []byte(req))
